@@ -56,6 +56,7 @@ class SubCheck:
     exhaustive: dict = dc.field(default_factory=dict)   # tier -> bool: the enumeration is a complete finite space
     note: str = ''
     shrink_budget_s: float = 45.0
+    external: Callable = None              # (ctx, name) -> None : e.g. a coverage-guided fuzz campaign in a subprocess
 
 
 class Findings:
@@ -147,6 +148,8 @@ class Ctx:
                 self._run_enum(name, sub)
             if sub.strategy is not None:
                 self._run_given(name, sub)
+            if sub.external is not None:
+                sub.external(self, name)
             self._stats(name)['wall'] += time.time() - t0
 
     def _unknown(self, vs):
@@ -318,6 +321,57 @@ def merge_evidence(mod, tier, seed, parts, wall, violation):
     if violation:
         ev['coverage']['violation'] = violation
     return ev
+
+
+def run_fuzz(ctx, name, target, runs, seed_inputs):
+    """Run one atheris campaign (pbt/fuzz_targets.py) in a subprocess and fold its statistics into ctx.
+    The saved input is the reproducible unit; -seed only pins libFuzzer approximately."""
+    import shutil
+    import subprocess
+    import sys
+    import tempfile
+    s = ctx._stats(name)
+    runs = runs.get(ctx.tier, 0) if isinstance(runs, dict) else runs
+    if not runs:
+        return
+    per = max(200, runs // ctx.nshards)
+    d = tempfile.mkdtemp(prefix=f'fuzz-{target}-')
+    try:
+        corpus = os.path.join(d, 'corpus')
+        os.makedirs(corpus)
+        if ctx.shard % 2 == 0:            # odd shards start from an empty corpus
+            for i, b in enumerate(seed_inputs):
+                with open(os.path.join(corpus, f'seed{i}'), 'wb') as f:
+                    f.write(b)
+        stats_file = os.path.join(d, 'stats.json')
+        cmd = [sys.executable, '-W', 'ignore', '-m', 'pbt.fuzz_targets', target, '--runs', str(per), '--seed',
+               str(ctx.seed * 1000 + ctx.shard + 1), '--corpus', corpus, '--stats', stats_file,
+               '--replay-dir', os.path.join(ROOT, 'replays', ctx.property_id)]
+        p = subprocess.run(cmd, capture_output=True, text=True, cwd=ROOT)
+        if not os.path.exists(stats_file):
+            if 'No module named' in (p.stderr or '') and 'atheris' in p.stderr:
+                s['classes']['atheris-unavailable'] = s['classes'].get('atheris-unavailable', 0) + 1
+                return
+            raise HarnessError(f'{name}: fuzz subprocess failed (exit {p.returncode}): {(p.stderr or p.stdout)[-1500:]}')
+        with open(stats_file) as f:
+            st_ = json.load(f)
+        if st_.get('harness_error'):
+            raise HarnessError(f'{name}: {st_["harness_error"]}')
+        s['evaluations'] += st_['execs']
+        s['keys'].update(st_['keys'])
+        s['classes']['fuzz-execs'] = s['classes'].get('fuzz-execs', 0) + st_['execs']
+        for smp in st_['samples']:
+            if len(s['samples']) < 3:
+                s['samples'].append(smp)
+        for sig, n in st_['known'].items():
+            e = next((x for x in ctx.findings.entries if x['signature'] == sig), {})
+            kh = s['known_hits'].setdefault(sig, {'count': 0, 'what': e.get('what', ''), 'example': 'found by the fuzz campaign'})
+            kh['count'] += n
+        if st_.get('violation'):
+            v = st_['violation']
+            raise ViolationFound(v['signature'], v['detail'], name, os.path.relpath(v['replay'], ROOT))
+    finally:
+        shutil.rmtree(d, ignore_errors=True)
 
 
 # -- small strategy helpers shared by checks ------------------------------------------------
